@@ -722,6 +722,28 @@ func main() {
 	})
 	r.Sample(map[string]any{"grid": "A", "case": "coder=udp type=3 mid=65535 code=255 token=ffffffffffffffff options=[1:'' 11:<13B> 11:'' 60:<4B>] payload=ff"})
 
+	// ---- grid A3: the datagram coder has one option registry for every code byte: option numbers that the stream
+	// signalling registries (7.01-7.05) redefine (2, 4) keep their RFC 7252 meaning on udp whatever the code is
+	phase("A3 udp: every code x options 2/4", func(w *worker, sh int) int64 {
+		var ord, n int64
+		for code := 0; code < 256; code++ {
+			for _, ol := range [][]optSpec{{{4, 1}}, {{4, 8}}, {{2, 0}, {4, 2}}, {{2, 3}, {4, 8}, {11, 1}}} {
+				for _, tl := range []int{0, 1} {
+					for _, pl := range []int{0, 1} {
+						ord++
+						if int(ord%int64(nw)) != sh {
+							continue
+						}
+						n++
+						c := caseDesc{Kind: "valid", Coder: "udp", Type: 0, MID: 4660, Code: code, TokLen: tl, Opts: ol, PayLen: pl, Sweep: 0, BufLen: -1}
+						w.checkValid(&c)
+					}
+				}
+			}
+		}
+		return n
+	})
+
 	// ---- grid A2: every message ID x every type
 	phase("A2 every MID x type", func(w *worker, sh int) int64 {
 		var n int64
@@ -971,7 +993,7 @@ func collect(r *ev.Run, workers []*worker, grids map[string]int64) {
 		}
 		r.Set("grid_sizes", g)
 	}
-	r.Set("rule", "grid (simplest first): A = token length 0..8 (two byte patterns) x all 256 codes x type 0..3 x MID {0,1,255,256,65534,65535} x 3 option lists x payload {0,1}; A2 = every MID 0..65535 x every type x 2 messages; E = full cross of small header values with every single short option; B = every ascending multiset (equal numbers in every value order) of up to 3 (thorough: 4) options over numbers {1,4,6,11,12,13,14,15,23,60,258,268,269,270,2000,65535} with value lengths {0,1,8,12,13,14,255,268,269,270,1034,65804} cut to the registry-legal ones plus each registry min/max (lists of 4: lengths {0,1,12,13,14,268,269,270,65804} cut to the legal ones) x 2 headers x payload {0,1,2}; C = for every single option and 4 longer lists the payload length that makes the stream body 0..14, 267..271, 65803..65807, 70000, 131072, 2^20+1; D = out-of-precondition ring (token 9..256 bytes, type <0 / 4..255 / >255, MID <0 / >65535, code >255, option value >65804 bytes). Every message goes through Size, Encode with every buffer length 0..size-1 when size <= sweep limit (300 quick / 600 thorough; a 14-point ring of lengths above), Encode exact, Decode, (stream) DecodeHeader + DecodeWithHeader, pool MarshalWithEncoder and UnmarshalWithDecoder, on both coders. Non-trivial = a distinct (by 64-bit hash of the message description) in-precondition message with at least one option or a payload, plus every refusal case.")
+	r.Set("rule", "grid (simplest first): A = token length 0..8 (two byte patterns) x all 256 codes x type 0..3 x MID {0,1,255,256,65534,65535} x 3 option lists x payload {0,1}; A2 = every MID 0..65535 x every type x 2 messages; A3 = datagram coder, all 256 codes x 4 lists over option numbers 2 and 4 (redefined by the stream signalling registries only); E = full cross of small header values with every single short option; B = every ascending multiset (equal numbers in every value order) of up to 3 (thorough: 4) options over numbers {1,4,6,11,12,13,14,15,23,60,258,268,269,270,2000,65535} with value lengths {0,1,8,12,13,14,255,268,269,270,1034,65804} cut to the registry-legal ones plus each registry min/max (lists of 4: lengths {0,1,12,13,14,268,269,270,65804} cut to the legal ones) x 2 headers x payload {0,1,2}; C = for every single option and 4 longer lists the payload length that makes the stream body 0..14, 267..271, 65803..65807, 70000, 131072, 2^20+1; D = out-of-precondition ring (token 9..256 bytes, type <0 / 4..255 / >255, MID <0 / >65535, code >255, option value >65804 bytes). Every message goes through Size, Encode with every buffer length 0..size-1 when size <= sweep limit (300 quick / 600 thorough; a 14-point ring of lengths above), Encode exact, Decode, (stream) DecodeHeader + DecodeWithHeader, pool MarshalWithEncoder and UnmarshalWithDecoder, on both coders. Non-trivial = a distinct (by 64-bit hash of the message description) in-precondition message with at least one option or a payload, plus every refusal case.")
 	r.Assume(
 		"the size formula and the registry in props/codecref are written from RFC 7252 §3/§5.10, RFC 7641, RFC 7959, RFC 7967 and RFC 8323 §3.2, not from the implementation",
 		"header fields, option lists and payload lengths are treated independently by the codec: grid A crosses all header values with 3 option lists, grids B/C cross all option lists / length classes with 2 headers; grid E is a full cross at the smallest sizes as a spot check of this assumption",
